@@ -6,6 +6,7 @@ import CrCube.Lemmas.SpecFacts
 import CrCube.Model.SliceApi
 import CrCube.Props.C06
 import CrCube.Lemmas.Slice1Var
+import CrCube.Lemmas.MinMax
 
 set_option linter.unusedSimpArgs false
 
@@ -124,6 +125,41 @@ theorem minBaseMask_iff (u : MatCounts) (bases : Nat → Nat → Val) (size : Va
 
 /-- for finite values, "below the threshold" is the rational order -/
 theorem mask_fin (b t : Rat) : (Val.fin b).lt (.fin t) = decide (b < t) := rfl
+
+/-- **`table_base_range` / `table_margin_range` are exactly [min, max] of the per-cell table
+    bases**: both ends are attained by a cell and bound every cell (finite bases, non-empty table). -/
+theorem table_range_spec (m : MatCounts) (f : Nat → Nat → Rat)
+    (hf : ∀ i j, m.tableBases i j = .fin (f i j)) (hr : 0 < m.nrows) (hc : 0 < m.ncols) :
+    ∃ lo hi : Rat, m.tableBasesRange = [.fin lo, .fin hi] ∧
+      (∃ i j, i < m.nrows ∧ j < m.ncols ∧ f i j = lo) ∧
+      (∃ i j, i < m.nrows ∧ j < m.ncols ∧ f i j = hi) ∧
+      (∀ i j, i < m.nrows → j < m.ncols → lo ≤ f i j ∧ f i j ≤ hi) := by
+  let cells : List Rat := (List.range m.nrows).flatMap (fun i => (List.range m.ncols).map (f i))
+  have hflat : (m.mat m.tableBases).flatten = cells.map Val.fin := by
+    simp only [MatCounts.mat, tab2, cells, List.flatten_eq_flatMap, List.flatMap_map, List.map_flatMap,
+      List.map_map, Function.comp_def, id]
+    apply List.flatMap_congr
+    intro i _
+    apply List.map_congr_left
+    intro j _
+    exact hf i j
+  have hmem : ∀ q, q ∈ cells ↔ ∃ i j, i < m.nrows ∧ j < m.ncols ∧ f i j = q := by
+    intro q
+    simp only [cells, List.mem_flatMap, List.mem_map, List.mem_range]
+    constructor
+    · rintro ⟨i, hi, j, hj, rfl⟩; exact ⟨i, j, hi, hj, rfl⟩
+    · rintro ⟨i, j, hi, hj, rfl⟩; exact ⟨i, hi, j, hj, rfl⟩
+  have hne : cells ≠ [] := by
+    intro h
+    have : f 0 0 ∈ cells := (hmem _).mpr ⟨0, 0, hr, hc, rfl⟩
+    rw [h] at this; simp at this
+  obtain ⟨lo, hlo, hlom, hlob⟩ := vmin_fin cells hne
+  obtain ⟨hi, hhi, hhim, hhib⟩ := vmax_fin cells hne
+  refine ⟨lo, hi, ?_, (hmem lo).mp hlom, (hmem hi).mp hhim, ?_⟩
+  · simp only [MatCounts.tableBasesRange, hflat, hlo, hhi]
+  · intro i j hi' hj'
+    have hm : f i j ∈ cells := (hmem _).mpr ⟨i, j, hi', hj', rfl⟩
+    exact ⟨hlob _ hm, hhib _ hm⟩
 
 -- non-vacuity of the hypotheses: see C01; a concrete mask instance (test):
 example : (MatCounts.catXcat (FT.ofFlat [1, 2] [.fin 3, .fin 7])).maskOf
